@@ -33,7 +33,7 @@ import (
 // Cases with a nil element inside a slice of records are skipped (the path encoding has no room for them).
 
 func optsEverywhere(v reflect.Value, o *ach.ValidateOpts, seen map[string]bool, depth int) {
-	if depth > 12 || !v.IsValid() {
+	if depth > 30 || !v.IsValid() {
 		return
 	}
 	switch v.Kind() {
